@@ -101,69 +101,86 @@ def lookupNat {α} (k : Nat) : List (Nat × α) → Option α
   | [] => none
   | (k', v) :: rest => if k' = k then some v else lookupNat k rest
 
-/-- The main loop of `tokenize`.  `total` = len(expression), `pos` = currentPos. -/
-def loop (tb : Tables) (total : Nat) : Nat → Nat → Bytes → Res (List Token)
-  | 0, _, _ => .panic "lexer model: out of fuel"
-  | _, _, [] => .ok [⟨.eof, [], total⟩]
-  | fuel + 1, pos, s =>
-    let (r, w) := Utf8.decodeRune s
-    let rest := s.drop w
-    let pos' := pos + w            -- currentPos after next()
-    let start := pos               -- currentPos - lastWidth
-    let cons (t : Token) (p : Nat) (s' : Bytes) : Res (List Token) :=
-      match loop tb total fuel p s' with
-      | .ok ts => .ok (t :: ts)
-      | e => e
-    let two (second : Nat) (matched single : TokType) : Res (List Token) :=
+/-- Outcome of one iteration of the main loop of `tokenize`. -/
+inductive Step where
+  | tok (t : Token) (rest : Bytes)     -- a token was appended; continue with `rest`
+  | skip (rest : Bytes)                -- white space
+  | fail (e : Err)                     -- return tokens, err
+  | crash (site : String)              -- a run-time panic
+
+/-- matchOrElse: a two-character token if the next rune is `second`, else the one-character one. -/
+def two (r : Nat) (rest : Bytes) (start : Nat) (second : Nat) (matched single : TokType) : Step :=
+  match rest with
+  | c :: rest' =>
+    if (Utf8.decodeRune rest).1 = second then .tok ⟨matched, [r.toUInt8, c], start⟩ rest'
+    else .tok ⟨single, [r.toUInt8], start⟩ rest
+  | [] => .tok ⟨single, [r.toUInt8], start⟩ rest
+
+/-- One iteration, given the rune `r` just read (`cur` = its bytes), the input
+    `rest` after it and the position `start` of the rune
+    (currentPos after next() = total − len(rest)). -/
+def stepAt (tb : Tables) (total : Nat) (r : Nat) (cur rest : Bytes) (start : Nat) : Step :=
+  if identStart tb.startBits r then
+    match scanIdent tb rest.length rest with
+    | .ok (v, rest') => .tok ⟨.uident, cur ++ v, start⟩ rest'
+    | .err e => .fail e
+    | .panic p => .crash p
+  else match lookupNat r tb.basic with
+  | some ty => .tok ⟨ty, Utf8.encodeRune r, start⟩ rest
+  | none =>
+    if r = 0x2D || (0x30 ≤ r && r ≤ 0x39) then
+      .tok ⟨.number, r.toUInt8 :: (scanDigits rest).1, start⟩ (scanDigits rest).2
+    else if r = 0x5B then
       match rest with
-      | c :: rest' =>
-        if (Utf8.decodeRune rest).1 = second then
-          cons ⟨matched, [r.toUInt8, c], start⟩ (pos' + 1) rest'
-        else cons ⟨single, [r.toUInt8], start⟩ pos' rest
-      | [] => cons ⟨single, [r.toUInt8], start⟩ pos' rest
-    if identStart tb.startBits r then
-      match scanIdent tb rest.length rest with
-      | .ok (v, rest') => cons ⟨.uident, s.take w ++ v, start⟩ (pos' + v.length) rest'
-      | .err e => .err e
-      | .panic p => .panic p
-    else match lookupNat r tb.basic with
-    | some ty => cons ⟨ty, Utf8.encodeRune r, start⟩ pos' rest
-    | none =>
-      if r = 0x2D || (0x30 ≤ r && r ≤ 0x39) then
-        let (d, rest') := scanDigits rest
-        cons ⟨.number, r.toUInt8 :: d, start⟩ (pos' + d.length) rest'
-      else if r = 0x5B then
-        match rest with
-        | 0x3F :: rest' => cons ⟨.filter, b "[?", start⟩ (pos' + 1) rest'
-        | 0x5D :: rest' => cons ⟨.flatten, b "[]", start⟩ (pos' + 1) rest'
-        | _ => cons ⟨.lbracket, b "[", start⟩ pos' rest
-      else if r = 0x22 then
-        match consumeUntil 0x22 rest.length rest with
-        | none => .err (.syntax total)
-        | some (v, rest') =>
-          match Json.unquoteString v with
-          | none => .err (.other "json: quoted identifier")
-          | some decoded => cons ⟨.qident, decoded, pos' - 1⟩ (pos' + v.length + 1) rest'
-      else if r = 0x27 then
-        match rawBody rest.length rest with
-        | none => .err (.syntax total)
-        | some (v, rest') => cons ⟨.stringLiteral, v, pos'⟩ (total - rest'.length) rest'
-      else if r = 0x60 then
-        match consumeUntil 0x60 rest.length rest with
-        | none => .err (.syntax total)
-        | some (v, rest') => cons ⟨.jsonLiteral, unescapeBacktick v, pos'⟩ (pos' + v.length + 1) rest'
-      else if r = 0x7C then two 0x7C .or .pipe
-      else if r = 0x3C then two 0x3D .lte .lt
-      else if r = 0x3E then two 0x3D .gte .gt
-      else if r = 0x21 then two 0x3D .ne .not
-      else if r = 0x3D then two 0x3D .eq .unknown
-      else if r = 0x26 then two 0x26 .and .expref
-      else if tb.white.contains r then loop tb total fuel pos' rest
-      else .err (.syntax ((pos' : Int) - 1))
+      | 0x3F :: rest' => .tok ⟨.filter, [0x5B, 0x3F], start⟩ rest'
+      | 0x5D :: rest' => .tok ⟨.flatten, [0x5B, 0x5D], start⟩ rest'
+      | _ => .tok ⟨.lbracket, [0x5B], start⟩ rest
+    else if r = 0x22 then
+      match consumeUntil 0x22 rest.length rest with
+      | none => .fail (.syntax total)
+      | some (v, rest') =>
+        match Json.unquoteString v with
+        | none => .fail (.other "json: quoted identifier")
+        | some decoded => .tok ⟨.qident, decoded, total - rest.length - 1⟩ rest'
+    else if r = 0x27 then
+      match rawBody rest.length rest with
+      | none => .fail (.syntax total)
+      | some (v, rest') => .tok ⟨.stringLiteral, v, total - rest.length⟩ rest'
+    else if r = 0x60 then
+      match consumeUntil 0x60 rest.length rest with
+      | none => .fail (.syntax total)
+      | some (v, rest') => .tok ⟨.jsonLiteral, unescapeBacktick v, total - rest.length⟩ rest'
+    else if r = 0x7C then two r rest start 0x7C .or .pipe
+    else if r = 0x3C then two r rest start 0x3D .lte .lt
+    else if r = 0x3E then two r rest start 0x3D .gte .gt
+    else if r = 0x21 then two r rest start 0x3D .ne .not
+    else if r = 0x3D then two r rest start 0x3D .eq .unknown
+    else if r = 0x26 then two r rest start 0x26 .and .expref
+    else if tb.white.contains r then .skip rest
+    else .fail (.syntax (((total - rest.length : Nat) : Int) - 1))
+
+/-- One iteration of the `for` loop of `tokenize` on the non-empty remaining
+    input `s` (`total` = len(expression); currentPos = total − len(remaining)). -/
+def step (tb : Tables) (total : Nat) (s : Bytes) : Step :=
+  stepAt tb total (Utf8.decodeRune s).1 (s.take (Utf8.decodeRune s).2) (s.drop (Utf8.decodeRune s).2) (total - s.length)
+
+/-- The main loop of `tokenize`. -/
+def loop (tb : Tables) (total : Nat) : Nat → Bytes → Res (List Token)
+  | 0, _ => .panic "lexer model: out of fuel"
+  | _, [] => .ok [⟨.eof, [], total⟩]
+  | fuel + 1, c :: cs =>
+    match step tb total (c :: cs) with
+    | .tok t rest =>
+      (match loop tb total fuel rest with
+       | .ok ts => .ok (t :: ts)
+       | e => e)
+    | .skip rest => loop tb total fuel rest
+    | .fail e => .err e
+    | .crash p => .panic p
 
 /-- `(*Lexer).tokenize` on a fresh lexer. -/
 def tokenize (tb : Tables) (expr : Bytes) : Res (List Token) :=
-  loop tb expr.length (expr.length + 1) 0 expr
+  loop tb expr.length (expr.length + 1) expr
 
 end Lexer
 end Jmes
